@@ -2,7 +2,7 @@
 # replay for failed obligation 'Circuit.prepare_multimode/prepare_multimode/subsystem-j-of-the-input-sits-at-modes[j]-and-every-other-mode-keeps-its-place' (property C05)
 # case: ''; solver: z3
 # verifier output (counter-model):
-#   choice_case = 179
+#   choice_case = 9
 import sys
 print('obligation Circuit.prepare_multimode/prepare_multimode/subsystem-j-of-the-input-sits-at-modes[j]-and-every-other-mode-keeps-its-place is not discharged on this tree; no failing concrete input was constructed')
 print('no-failing-input-found')
